@@ -149,8 +149,15 @@ CLAIMS = {
             "oracle hypothesis); an Err requires a failing write or flush for every chunking "
             "(C01_encode_err_only_from_writer). PARTIAL: C01_encode_never_panics_partial excludes the decidable class "
             "neg_dist_class (osu!/catch slider with negative curve distance = the D18 clamp panic); it is proved empty "
-            "outside osu!-mode Catmull sliders and when the Catmull surplus is outweighed by one segment; the residue needs "
-            "an f32 rounding analysis (none found in 192M random + exhaustive small grids, probes/C01_negdist/). OPEN: "
+            "outside osu!-mode Catmull sliders, when the Catmull surplus is outweighed by one segment, and - by a binary32 / "
+            "binary64 rounding analysis of the simplification loop and the running sums - for every osu!-mode Catmull slider "
+            "whose Catmull sub-path vertices are finite with |c| <= 2^20, at most 2^30 in number and pairwise equal or >= 2^-60 "
+            "apart (C01_curve_dist_nonneg_bounded: -surplus <= 0.76 x the kept segment lengths, the chord of a group IS one of "
+            "the kept segments bit for bit; C01_encode_never_panics_bounded for decoded maps, with a boolean test of the "
+            "hypotheses proved sound and Examples of decoded sliders with a NEGATIVE surplus that pass it); the residue is the "
+            "underflow range (steps strictly between 0 and 2^-60 - not reachable from decoded text as far as probed: decoded "
+            "coordinates are integers) and that EVERY decoded slider meets the bounds (none found otherwise in 192M random + "
+            "exhaustive small grids + 3.2e7 evaluations in the underflow regime, probes/C01_negdist/). OPEN: "
             "memory safety of the unsafe blocks (outside the model). Tie to the code: all nine decoders on "
             "noise, grammar files, mutations, truncations at every length, BOM/UTF-16 variants, UTF-16LE files cut after the low byte of every line feed, large and ill-conditioned "
             "sliders, clusters of objects within 8 ulps in time, byte-level composed model correspondence, in release, debug (overflow checks) and tracing-feature "
@@ -260,8 +267,19 @@ CLAIMS = {
             "than its tolerance requires - the property only says `derived from the tolerances`); Bezier n(2n-1)/8 x 0.5 for "
             "the WHOLE subdivision loop (C17_bezier_hausdorff, via the convex-hull property and a discrete maximum "
             "principle on a flat piece); Catmull vertices exactly on the curve, chords within |P''|/8/2500 <= 3L/10000 "
-            "(second derivative by Coquelicot); osu! simplification within 6 px both ways; linear 0. NOT proved: the "
-            "binary32/binary64 rounding and libm error between computed vertices and the real instance (measured by the "
+            "(second derivative by Coquelicot); osu! simplification within 6 px both ways; linear 0. T17e in BINARY32 (finite "
+            "coordinates with |c| <= 2^E): linear vertices are exact; every computed Catmull vertex coordinate is within E_cat = "
+            "72 x 2^(E-24) of the exact polynomial, the rounding of t = fl(c/50) included (C17_catmull_vertex_ieee), so the "
+            "computed polyline is within the real bound + 3/2 E_cat of the spline (C17_catmull_hausdorff_ieee), the phantom "
+            "point and the osu! simplification as computed included (within 6 + 2^-19 both ways); Bezier, for n x 2^E <= 2^22: "
+            "every emitted vertex is within Kbez(n-1) + E_bez of the exact curve of the original control points and the "
+            "two-sided Hausdorff bound holds for the WHOLE subdivision loop as computed (C17_bezier_hausdorff_ieee[_tight]; "
+            "cubics: E_bez_t <= 2^-19 + 161 x 2^(E-25)); arcs, with the libm accuracy el as a hypothesis of the theorem: the "
+            "binary64 angle within 2^-47, every emitted vertex within E_arc = 2^E (el + 2^-47) + 2^(E-23) of the exact arc "
+            "vertex with the same computed centre, radius and angles, two-sided bound sag_n + 3/2 E_arc for the computed number "
+            "of points (C17_arc_hausdorff_ieee_partial). NOT proved: for arcs that sag_n <= 4 x tolerance for the COMPUTED "
+            "count (acosf, binary32 division, ceil), the error of the computed centre / radius / angles against the circle "
+            "through the three control points, that libm meets the accuracy hypothesis (measured by the "
             "oracle with explicit slack on top of each proved bound), the direction choice of perfect curves. Recorded deviation D19 (ill-conditioned "
             "three-point arcs). Tie to the code: bit-exact correspondence of computed paths.",
             "§6 C17"),
